@@ -178,6 +178,12 @@ ResolveLv(lhs, st) ==
   IF lhs.k = "var" THEN
     R([t |-> "P", key |-> KeyS(lhs.n, lhs.t), flat |-> 0, path |-> <<>>, vt |-> lhs.t,
        fix |-> DeclFix(st, KeyS(lhs.n, lhs.t))], st)
+  \* a whole array (an argument A()): the place is the array itself
+  ELSE IF lhs.k = "arr" THEN
+    LET key == KeyA(lhs.n, lhs.t)
+        a == GetKey(st, key)
+    IN IF a.t # "A" THEN R(Err(0), st)
+       ELSE R([t |-> "P", key |-> key, flat |-> 0, path |-> <<>>, vt |-> lhs.t, fix |-> a.fix], st)
   ELSE IF lhs.k = "fld" THEN
     LET r == ResolveLv(lhs.base, st) IN
     IF IsErr(r.v) THEN r
@@ -307,7 +313,7 @@ Eval(e, st) ==
 (* after return); anything else by value after conversion to the parameter  *)
 (* type.                                                                    *)
 (***************************************************************************)
-IsLvalue(e) == e.k \in {"var", "idx", "fld"}
+IsLvalue(e) == e.k \in {"var", "idx", "fld", "arr"}
 
 \* result: [v |-> error or "ok", st, vars (callee env), refs]
 BindArgs(params, args, st, j, acc) ==
@@ -315,8 +321,10 @@ BindArgs(params, args, st, j, acc) ==
   ELSE
     LET p == params[j]
         a == args[j]
-        pkey == KeyS(p.n, p.t)
-    IN IF IsLvalue(a) THEN
+        parr == "arr" \in DOMAIN p /\ p.arr          \* an array parameter X(): the whole array comes in and goes back
+        pkey == IF parr THEN KeyA(p.n, p.t) ELSE KeyS(p.n, p.t)
+    IN IF parr # (a.k = "arr") THEN [v |-> Err(0), st |-> st, vars |-> acc.vars, refs |-> acc.refs]
+       ELSE IF IsLvalue(a) THEN
          LET r == ResolveLv(a, st) IN
          IF IsErr(r.v) THEN [v |-> r.v, st |-> r.st, vars |-> acc.vars, refs |-> acc.refs]
          ELSE IF PlaceType(r.v) # p.t THEN [v |-> Err(0), st |-> r.st, vars |-> acc.vars, refs |-> acc.refs]
@@ -349,6 +357,8 @@ Enter(pi, b, sid, kk) ==
 RECURSIVE CopyOut(_, _, _, _)
 CopyOut(st, refs, vars, j) ==
   IF j > Len(refs) THEN st
+  ELSE IF refs[j].key[3] = "a" THEN      \* a whole array goes back as it is
+       CopyOut(IF refs[j].key \in DOMAIN vars THEN WritePlace(st, refs[j].place, vars[refs[j].key]) ELSE st, refs, vars, j + 1)
   ELSE LET v == IF refs[j].key \in DOMAIN vars THEN vars[refs[j].key] ELSE Default(refs[j].key[2])
            c == ConvFor(st, refs[j].place, v)
        IN CopyOut(WritePlace(st, refs[j].place, c), refs, vars, j + 1)
